@@ -386,6 +386,8 @@ class NoPanic:
                     for c in (t.get("closures") or []):
                         if c in P.fns and 0 in P.fns[c].diverging():
                             covered.add(c)
+        # helpers that only format and panic are judged at each of their call sites (call_site), not on their own
+        covered |= {p for p in reach if p not in self.roots and self.panicking_helper(p)}
         for p in sorted(reach):
             if p in covered:
                 continue
@@ -1369,21 +1371,39 @@ class NoPanic:
         sp = strip_generics(path)
         name = sp.split("::")[-1]
         targets = P.call_targets(t)
-        if any(x in P.fns for x in targets):
+        helper_panic = bool(targets) and all(x in P.fns and self.panicking_helper(x) for x in targets)
+        if any(x in P.fns for x in targets) and not helper_panic:
             return  # local callee: scanned on its own
         args = [ev.op(a, (b, "term")) for a in t["args"]]
-        if sp in PANIC_FNS or sp.startswith("core::panicking::"):
+        if helper_panic or sp in PANIC_FNS or sp.startswith("core::panicking::"):
+            # (a call of a crate-local `fn fail(..) -> !` that only formats and panics is the panic itself: it is judged here, where the reason
+            #  for getting there is known, and not inside the helper)
             if B.infeasible(b):
                 return self.rec(fn, b, "panic", self.panic_desc(fn, b, args), "proved", "panic block is infeasible under the branch facts")
+            guarded = None
             for r in flow.rel_facts_at(B.IN, b):
                 if r[0] in ("Eq", "Ne") and isinstance(r[1], tuple) and r[1][0] == "discr" and r[2][0] == "int":
                     xs = values.strip_payload(r[1][1])
+                    ty_ = str(getattr(ev, "discr_adt", {}).get(r[1][1]) or ev.tty.get(r[1][1], "") or ev.tty.get(xs, "") or "")
+                    is_opt_ = "option::Option" in ty_.split("<")[0] or (not ty_ and "Option" in str(ev.tty.get(r[1][1], "Option")))
+                    is_res_ = "result::Result" in ty_.split("<")[0]
                     # reached only when xs is None / Err
-                    failing = (r[0] == "Eq" and r[2][1] in (0,) and "Option" in str(ev.tty.get(r[1][1], "Option"))) or (r[0] == "Ne" and r[2][1] == 1 and "Option" in str(ev.tty.get(r[1][1], "Option")))
+                    if is_opt_:
+                        failing = (r[0] == "Eq" and r[2][1] == 0) or (r[0] == "Ne" and r[2][1] == 1)
+                    elif is_res_:
+                        failing = (r[0] == "Eq" and r[2][1] == 1) or (r[0] == "Ne" and r[2][1] == 0)
+                    else:
+                        failing = False
                     if failing:
                         why = self.never_fails(fn, B, b, xs)
                         if why:
-                            return self.rec(fn, b, "panic", self.panic_desc(fn, b, args), "typed", "only reached when %s is None, but %s" % (describe(P, xs), why))
+                            return self.rec(fn, b, "panic", self.panic_desc(fn, b, args), "typed", "only reached when %s is %s, but %s" % (describe(P, xs), "None" if is_opt_ else "Err", why))
+                        guarded = (r[1][1], is_opt_)
+            if guarded is not None and self.panic_desc(fn, b, args) in ("panic", "unreachable", "call"):
+                # `match x { Ok(v) => v, Err(e) => panic!(..) }` / `let Some(v) = x else { fail(..) }` is x.expect(..) spelled out: the same
+                # obligation under the same name
+                xraw, is_opt_ = guarded
+                return self.unwrap_value(fn, B, self.guard_block(fn, B, b, xraw), "unwrap", xraw, is_opt_)
             return self.rec(fn, b, "panic", self.panic_desc(fn, b, args), "open", "explicit panic is reachable")
         if name in PANICKING_CALLS and (sp.startswith("core::option::Option") or sp.startswith("core::result::Result")):
             return self.unwrap_site(fn, B, b, t, args, name)
@@ -1520,6 +1540,81 @@ class NoPanic:
             return self.rec(fn, b, "pow", ",".join(describe(P, a) for a in args), "open", "integer pow may overflow")
         return
 
+    def panicking_helper(self, path):
+        """A crate-local function that never returns and does nothing but format and panic (`fn wrong_length(..) -> ! { panic!(..) }`): calling
+        it is the panic.  No loops; every call in it is a panic entry point or formatting machinery."""
+        c = self.__dict__.setdefault("_ph", {})
+        if path in c:
+            return c[path]
+        c[path] = False
+        fn = self.P.fns.get(path)
+        if fn is None or fn.loops() or 0 not in fn.diverging() or fn.kind == "closure" or "{closure" in path:
+            return False
+        direct = False
+        for bb, t in fn.calls():
+            q = strip_generics(t["fn"].get("path", ""))
+            if q in PANIC_FNS or q.startswith("core::panicking::"):
+                direct = True
+            elif "fmt" in q or q.startswith("log::"):
+                continue
+            else:
+                return False
+        c[path] = direct
+        return direct
+
+    def local_never_fails(self, path, depth=0):
+        c = self.__dict__.setdefault("_lnf", {})
+        if path in c:
+            return c[path]
+        c[path] = None
+        fn = self.P.fns.get(path)
+        B = self.bounds.get(path)
+        if fn is None or B is None or depth > 3 or not fn.locals[0]["ty"].startswith(("core::result::Result<", "core::option::Option<")):
+            return None
+        r = values.strip_payload(B.ev.ret()) if False else B.ev.ret()
+        alts = r[1] if isinstance(r, tuple) and r and r[0] == "phi" else (r,)
+        whys = []
+        nok = 0
+        for a in alts:
+            if isinstance(a, tuple) and a and a[0] == "agg" and str(a[1]).endswith(("Result::Ok", "Option::Some")):
+                nok += 1
+                continue
+            if is_call(a) and callee_name(a[1]) == "from_residual" and a[2]:
+                s0 = values.strip_payload(a[2][0])
+                while isinstance(s0, tuple) and s0 and s0[0] in ("vfield", "field", "variant"):
+                    s0 = s0[1]
+                if is_call(s0) and callee_name(s0[1]) == "branch" and s0[2]:
+                    s0 = values.strip_payload(s0[2][0])
+                sb = s0[3][1] if is_call(s0) and len(s0) > 3 and s0[3] and s0[3][0] == path else None
+                if sb is None:
+                    return None
+                w0 = self.never_fails(fn, B, sb, s0)
+                if not w0:
+                    return None
+                whys.append(w0)
+                continue
+            return None
+        if not nok:
+            return None
+        c[path] = "%s never fails: %s" % (path.split("::")[-1], "; ".join(sorted(set(whys))) if whys else "it only builds Ok/Some")
+        return c[path]
+
+    def guard_block(self, fn, B, b, xraw):
+        """The block that branches on the discriminant of xraw and dominates b: the obligation `xraw is Some/Ok` is judged there (at b itself
+        the branch fact says it is None/Err)."""
+        ev = B.ev
+        d = b
+        seen = set()
+        while d is not None and d not in seen:
+            seen.add(d)
+            tt = fn.blocks[d].term
+            if tt["k"] == "switch":
+                c = ev.op(tt["op"], (d, "term"))
+                if isinstance(c, tuple) and c and c[0] == "discr" and c[1] == xraw:
+                    return d
+            d = fn.idom().get(d) if d != 0 else None
+        return b
+
     def panic_desc(self, fn, b, args):
         # the macro that expands to this panic (assert, assert_eq, unreachable, panic, ...): rewording the message must not rename the site
         t = fn.blocks[b].term
@@ -1545,6 +1640,13 @@ class NoPanic:
                 a0 = tt0["args"][0].get("mv") or tt0["args"][0].get("cp")
                 continue
             break
+        return self.unwrap_value(fn, B, b, name, x, "Option" in t["fn"].get("path", ""))
+
+    def unwrap_value(self, fn, B, b, name, x, is_opt):
+        """The obligation "x is Some/Ok at block b" - of `x.unwrap()` / `x.expect(..)`, and of a panic that is only reached when x is None/Err."""
+        P = self.P
+        ev = B.ev
+        W = self.W
         x0 = x
         while isinstance(x0, tuple) and x0 and x0[0] == "vfield":
             x0 = x0[1]
@@ -1584,7 +1686,6 @@ class NoPanic:
                     return self.rec(fn, b, name, coarse(P, srcs_[0]), "typed", "every fallible step behind this value cannot fail: " + "; ".join(sorted(set(whys))))
         desc = coarse(P, xs)
         rels = flow.rel_facts_at(B.IN, b)
-        is_opt = "Option" in t["fn"].get("path", "")
         good_pred = "is_some" if is_opt else "is_ok"
         for r in rels:
             if r[0] == "Pred" and r[1] == good_pred and values.strip_payload(r[2]) == xs:
@@ -1654,6 +1755,12 @@ class NoPanic:
                 if w and w["width"] <= w["size"]:
                     return "%d-byte write into a %d-byte array" % (w["width"], w["size"])
             return None
+        if x[1] in P.fns and not p.endswith(("RtMessage::encode", "RtMessage::encode_framed", "RtMessage::add_field")):
+            # a crate-local fallible helper (`fn try_make_cert(..) -> Result<..> { a()?; b()?; Ok(v) }`): it fails exactly when one of its `?`
+            # steps does; each step is judged in the helper, where it stands
+            why_l = self.local_never_fails(x[1])
+            if why_l:
+                return why_l
         if p.endswith("RtMessage::encode") or p.endswith("RtMessage::encode_framed"):
             if self.fn_never_err(p):
                 return "%s never returns Err (all its `?` sources are writes to a Vec)" % name
